@@ -1051,6 +1051,68 @@ def arc_cases(seed, quick):
 
 
 # ------------------------------------------------------------------------------------------
+# ------------------------------------------------------------------------------------------
+# purity: the helpers answer from their arguments and leave them alone
+# ------------------------------------------------------------------------------------------
+def _purity_calls():
+    from geometry_tools import utils
+    J3, J4 = np.diag([-1.0, 1.0, 1.0]), np.diag([-1.0, 1.0, 1.0, 1.0])
+    B = np.array([[2.0, 1.0, 0.0], [1.0, -1.0, 0.5], [0.0, 0.5, 1.0]])
+    pts2 = np.array([[0.0, 0.0], [4.0, 0.0], [0.0, 3.0]])
+    pts3 = np.array([[1.0, 0.0, 0.0], [0.0, 2.0, 0.0], [0.0, 0.0, 3.0], [1.0, 1.0, 1.0]])
+    th = np.array([[0.1, 3.0], [-2.5, 2.9], [3.0, -3.1]])
+    calls = [
+        ("projection", lambda a, b, f: utils.projection(a, b, f), [np.array([1.0, 2.0, 3.0]), np.array([0.0, 1.0, 1.0]), J3]),
+        ("projection-batch", lambda a, b, f: utils.projection(a, b, f), [np.arange(18.0).reshape(2, 3, 3) + 1.0, np.ones((2, 3, 3)) + np.eye(3), J3]),
+        ("find_isometry", lambda f, r: utils.find_isometry(f, r, True), [J3, np.array([[2.0, 1.0, 0.0]])]),
+        ("find_isometry-batch", lambda f, r: utils.find_isometry(f, r, False), [J4, np.array([[[3.0, 1.0, 0.0, 1.0]], [[2.0, 0.0, 1.0, 0.5]]])]),
+        ("find_definite_isometry", lambda r: utils.find_definite_isometry(r), [np.array([[2.0, 1.0, 0.0], [0.0, 1.0, 1.0]])]),
+        ("orthogonal_complement", lambda r: utils.orthogonal_complement(r), [np.array([[2.0, 1.0, 0.0]])]),
+        ("diagonalize_form", lambda b: utils.diagonalize_form(b, order_eigenvalues="minkowski", with_inverse=True), [B]),
+        ("diagonalize_form-batch", lambda b: utils.diagonalize_form(b), [np.stack([B, J3, -B])]),
+        ("kernel", lambda m: utils.kernel(m), [np.array([[2.0, 1.0, 0.0], [1.0, -1.0, 0.0]])]),
+        ("sphere_through", lambda p_: utils.sphere_through(p_), [pts2]),
+        ("sphere_through-3d", lambda p_: utils.sphere_through(p_), [pts3]),
+        ("sphere_through-batch", lambda p_: utils.sphere_through(p_), [np.stack([pts2, pts2[::-1] + 1.0])]),
+        ("circle_through", lambda a, b, c: utils.circle_through(a, b, c), [pts2[0].copy(), pts2[1].copy(), pts2[2].copy()]),
+        ("circle_angles", lambda c, p_: utils.circle_angles(c, p_), [np.array([0.5, -0.25]), np.array([[1.0, 0.0], [0.0, 1.0]])]),
+        ("short_arc", lambda t_: utils.short_arc(t_), [th]),
+        ("short_arc-single", lambda t_: utils.short_arc(t_), [th[1].copy()]),
+        ("right_to_left", lambda t_: utils.right_to_left(t_), [th]),
+        ("arc_include", lambda t_, r: utils.arc_include(t_, r), [th, np.array([1.0, 0.0, -3.0])]),
+        ("arc_include-single", lambda t_: utils.arc_include(t_, 1.0), [th[0].copy()]),
+    ]
+    return calls
+
+
+def _flat(r):
+    if isinstance(r, (tuple, list)):
+        out = []
+        for x in r:
+            out += _flat(x)
+        return out
+    return [np.array(r, copy=True)]
+
+
+def case_purity(case):
+    name, f, args = _purity_calls()[case["i"]]
+    v = []
+    snaps = [np.array(a, copy=True) for a in args]
+    r1 = _flat(f(*args))
+    for k, (a, s0) in enumerate(zip(args, snaps)):
+        if a.shape != s0.shape or not np.array_equal(a, s0):
+            v.append(_V("purity/argument-modified/%s" % name.split("-")[0], "%s changed its argument %d in place: %r -> %r" % (name, k, s0.tolist(), a.tolist())))
+    keep = [x.copy() for x in r1]
+    r2 = _flat(f(*[s0.copy() for s0 in snaps]))
+    r3 = _flat(f(*args)) if not v else r2
+    for tag, other in (("fresh-arguments", r2), ("same-arguments-again", r3)):
+        if len(other) != len(r1) or any(x.shape != y.shape or not np.allclose(x, y, rtol=1e-12, atol=1e-12, equal_nan=True) for x, y in zip(keep, other)):
+            v.append(_V("purity/answer-changes/%s/%s" % (name.split("-")[0], tag), "%s answers differently the second time" % name))
+    if any(x.shape != y.shape or not np.array_equal(x, y, equal_nan=True) for x, y in zip(r1, keep)):
+        v.append(_V("purity/returned-array-rewritten/%s" % name.split("-")[0], "%s: an array returned earlier was changed by a later call" % name))
+    return {"v": v, "t": 3, "o": name, "nt": True}
+
+
 def run(ctx):
     q = ctx.quick
     seed = ctx.seed
@@ -1091,6 +1153,10 @@ def run(ctx):
     dom_forms["ordered row sets (all k)"] = count_rowsets(nmax, m_rows, False, nforms)
     dom_forms["ordered partial row sets (k<n)"] = count_rowsets(nmax, m_rows, True, nforms)
     dom_forms["grouping"] = "one framework case = all ordered k-subsets with a given first row (k=1: all rows)"
+    ctx.product("purity", "checks.c18:case_purity", [{"i": i} for i in range(len(_purity_calls()))], chunk=2,
+                domains={"helpers": sorted({c[0].split("-")[0] for c in _purity_calls()}),
+                         "demand": "arguments bitwise unchanged; same answer from fresh copies and from the same arrays again; earlier results not rewritten",
+                         "excluded": "normalize / indefinite_orthogonalize (they rescale rows in place by design; flags are unchanged)"})
     ctx.product("orthogonalize", "checks.c18:case_orth_group", rowset_groups(nmax, m_rows, seed, False), domains=dom_forms, chunk=4)
     ctx.product("find_isometry", "checks.c18:case_isometry_group", rowset_groups(nmax, m_rows, seed, True), domains=dom_forms, chunk=4)
     nb = 4 if q else 5
